@@ -321,24 +321,38 @@ func (P *Program) externEffect(fn *ssa.Function, c *ssa.CallCommon) string {
 	sig := fn.Signature
 	callback := false
 	writes := false
-	check := func(t types.Type) {
-		switch u := t.Underlying().(type) {
+	name := fn.Name()
+	mutName := false
+	for _, pre := range []string{"Put", "Read", "Encode", "Decode", "Copy", "Fill", "Sort", "Shuffle", "Store", "Swap", "CompareAndSwap", "Add", "Set", "Write", "Reset", "Grow", "Truncate", "Unmarshal", "Scan", "Stable", "Reverse", "Delete", "Insert", "Clear", "Seek", "Discard", "Peek", "Unread", "Flush", "Close", "Lock", "Unlock", "RLock", "RUnlock", "Do", "Wait", "Done", "Load", "Parse", "Init", "Sum", "Next", "Push", "Pop", "Remove", "Append", "Replace", "Expand", "XOR", "Mkdir", "Rename", "Chmod", "Truncate", "Sync"} {
+		if strings.HasPrefix(name, pre) {
+			mutName = true
+		}
+	}
+	check := func(t types.Type, isRecv bool) {
+		switch t.Underlying().(type) {
 		case *types.Signature:
 			callback = true
 		case *types.Interface:
 			if !inPure {
 				callback = true
 			}
-		case *types.Pointer, *types.Slice, *types.Map:
-			_ = u
-			writes = true
+		case *types.Pointer:
+			// in pure packages a pointer receiver/argument of a stdlib type is only written by
+			// mutator-named functions; falco never reads stdlib internals, so a shallow havoc is enough
+			if !inPure || mutName || isRecv {
+				writes = true
+			}
+		case *types.Slice, *types.Map:
+			if !inPure || mutName {
+				writes = true
+			}
 		}
 	}
 	if sig.Recv() != nil {
-		check(sig.Recv().Type())
+		check(sig.Recv().Type(), true)
 	}
 	for i := 0; i < sig.Params().Len(); i++ {
-		check(sig.Params().At(i).Type())
+		check(sig.Params().At(i).Type(), false)
 	}
 	if callback {
 		return "full"
@@ -402,4 +416,33 @@ func shortTypeName(s string) string {
 func posString(fset *token.FileSet, p token.Pos) string {
 	pp := fset.Position(p)
 	return fmt.Sprintf("%s:%d", shortFile(pp.Filename), pp.Line)
+}
+
+
+var detPkgs = []string{"strings", "strconv", "unicode", "unicode/utf8", "unicode/utf16", "math", "math/bits", "fmt", "bytes", "path", "path/filepath",
+	"net", "net/netip", "regexp", "go.elara.ws/pcre", "net/url", "net/textproto", "encoding/hex", "encoding/base64", "encoding/binary", "sort", "errors",
+	"crypto/md5", "crypto/sha1", "crypto/sha256", "crypto/sha512", "hash/crc32", "html", "slices", "time"}
+
+// deterministic: same arguments (and same heap) give the same result.
+func (P *Program) deterministic(fn *ssa.Function) bool {
+	pkg := ""
+	if fn.Pkg != nil {
+		pkg = fn.Pkg.Pkg.Path()
+	} else if fn.Object() != nil && fn.Object().Pkg() != nil {
+		pkg = fn.Object().Pkg().Path()
+	}
+	ok := false
+	for _, p := range detPkgs {
+		if pkg == p {
+			ok = true
+		}
+	}
+	if !ok {
+		return false
+	}
+	switch fn.Name() {
+	case "Now", "Since", "Until", "After", "Tick", "NewTimer", "NewTicker", "Sleep", "LookupIP", "LookupHost", "LookupAddr", "Dial", "Listen", "Interfaces", "InterfaceAddrs", "Fprintf", "Fprint", "Fprintln", "Printf", "Print", "Println", "Sscanf", "Sscan":
+		return false
+	}
+	return true
 }
